@@ -377,7 +377,7 @@ package keeper
 //@ loop #1
 //@   invariant -1 <= rangeindex && rangeindex < len(res_GetPendingUndelegationRecords_0)
 //@   invariant forall(j, 0, len(res_GetPendingUndelegationRecords_0), res_GetPendingUndelegationRecords_0[j] != nil)
-//@   step[C03.eb.record,C09.eb.isolated] state(originalCtx) == old(state(originalCtx)) ||
+//@   step[C01.eb.release,C03.eb.record,C09.eb.isolated] state(originalCtx) == old(state(originalCtx)) ||
 //@        ebReleased(originalCtx, res_GetPendingUndelegationRecords_0[rangeindex]) ||
 //@        ebReleasedNative(originalCtx, res_GetPendingUndelegationRecords_0[rangeindex]) ||
 //@        ebRequeued(originalCtx, res_GetPendingUndelegationRecords_0[rangeindex])
